@@ -537,6 +537,22 @@ def run_elp(cell, g, fails, notes, feats):
                 if alt is not None:
                     d2 = np.abs(gn - alt[meth])
                     aerrs[meth][nl] = float(np.where(np.isnan(d2), np.inf, d2).max())
+    # ---- outlying observations: log_marginal must stay the log of the (tiny) marginal density, far below log(eps)
+    if name == "Laplace" and not shape and not lik_batch:
+        pv0 = _pv_at(vals, ())
+        lp = _doc_logp(name, pv0)
+        with settings.num_gauss_hermite_locs(NODE_CHAIN[-1]):
+            lik_o, _ = _build_lik(name, PSETS[name][pset], ())
+        for m_, v_, off in [(0.0, 0.5, 30.0), (0.7, 2.0, -45.0), (-2.0, 0.01, 80.0)]:
+            y_ = m_ + off
+            c = lp(y_, m_)  # scale the integrand so that the reference integral is O(1)
+            ref_o = c + math.log(Q.expect(lambda f: math.exp(lp(y_, f) - c), m_, v_))
+            with fails.guard("log_marginal-outlier"):
+                got_o = float(lik_o.log_marginal(torch.tensor([y_], dtype=F64), MVN(torch.tensor([m_], dtype=F64), torch.tensor([[v_]], dtype=F64))))
+                ops += 1
+                if not abs(got_o - ref_o) <= 1e-3 * abs(ref_o):
+                    _add(fails, "log_marginal-outlier", f"log_marginal of an outlying observation != log of the marginal density: err={abs(got_o - ref_o):.3e}",
+                         f"y - m = {off}, v = {v_}: got {got_o:.6f} want {ref_o:.6f} (log eps = {math.log(2.2e-16):.2f})")
     for meth in ("elp", "lm"):
         sub = "expected_log_prob" if meth == "elp" else "log_marginal"
         if len(errs[meth]) != len(NODE_CHAIN):
